@@ -326,6 +326,34 @@ pub fn shape_cases(tier: &str, seed: u64) -> Vec<ShapeCase> {
             }
         }
     }
+    // arrays far taller or wider than any symbol whose dimensions agree with a real symbol in the low bits
+    // (height = rows + 256 j, width = cols or cols with the bits of j removed; the same with the roles exchanged),
+    // and arrays beyond 144 x 144 whose length is / is not a multiple of the width
+    for s in CATALOGUE.iter() {
+        for j in 1usize..=255 {
+            if j & !s.cols != 0 && j > 3 {
+                continue;
+            }
+            for w in [s.cols, s.cols & !j] {
+                let h = s.rows + 256 * j;
+                if w == 0 || w * h > 600_000 || (tier != "thorough" && j > 3 && j != s.cols && w * h > 60_000) {
+                    continue;
+                }
+                for fill in ["zeros", "tiled"] {
+                    v.push(ShapeCase { w, n: w * h, fill });
+                }
+            }
+            let (w, h) = (s.cols + 256 * j, s.rows);
+            if j <= 2 {
+                v.push(ShapeCase { w, n: w * h, fill: "zeros" });
+            }
+        }
+    }
+    for (w, n) in [(144usize, 144 * 144 + 1), (144, 144 * 145), (145, 144 * 144 + 145), (145, 145 * 145), (7, 144 * 144 + 5), (1, 30_000), (20_737, 20_737), (20_737, 20_738)] {
+        for fill in ["zeros", "tiled"] {
+            v.push(ShapeCase { w, n, fill });
+        }
+    }
     v
 }
 
@@ -335,6 +363,18 @@ pub fn shape_case(idx: usize, c: &ShapeCase, seed: u64) -> Value {
     let px: Vec<bool> = match c.fill {
         "zeros" => vec![false; c.n],
         "ones" => vec![true; c.n],
+        "tiled" => {
+            // a valid rendering of the first symbol of this width, repeated cyclically
+            match CATALOGUE.iter().find(|s| s.cols == c.w).and_then(|s| size_by_name(s.name).map(|z| (s, z))) {
+                Some((s, size)) => {
+                    let cw: Vec<u8> = (0..s.total()).map(|i| (i * 37 + 11) as u8).collect();
+                    let bm = MatrixMap::new_with_codewords(&cw, size).bitmap();
+                    let tile = bm.bits().to_vec();
+                    (0..c.n).map(|i| tile[i % tile.len()]).collect()
+                }
+                None => vec![false; c.n],
+            }
+        }
         _ => (0..c.n).map(|_| rng.chance(1, 2)).collect(),
     };
     let w = c.w;
